@@ -158,6 +158,19 @@ class LinearTransformViews:
             yout = apply_spec(Bi, bi, xout, False)
             want = np.moveaxis(np.frompyfunc(E.sub, 2, 1)(yout, yh), -1, 0)
             K.ensure_eq("disp-other", K.val(uo)[0], want, text=Q6V + " [disp(other grid): the same world map re-expressed in the other grid's cube]")
+        # 4b. displacement field on the *same lattice* read with the other align_corners flag (Grid.__eq__ ignores the flag,
+        # the normalised cube does not): still the same world map, in the other cube's units
+        h2 = g.align_corners(not ac)
+        hs2 = SG.GridSpec(gs.N, gs.s, gs.c, gs.R, not ac)
+        outside_cube_band(K, gs, ac, hs2, not ac)  # (extents n s and (n-1) s coincide within allclose only for tiny spacings)
+        uf = K.call(t.disp, h2) if not case.get("skip_other") or D == 2 else None
+        if uf is not None and K.ensure_returns(uf):
+            yh = lattice(shape, not ac)
+            B, b = SG.point_map(hs2, cube_axes(not ac), gs, cube_axes(ac))
+            Bi, bi = SG.point_map(gs, cube_axes(ac), hs2, cube_axes(not ac))
+            yout = apply_spec(Bi, bi, apply_spec(A, tr, apply_spec(B, b, yh, False), False), False)
+            want = np.moveaxis(np.frompyfunc(E.sub, 2, 1)(yout, yh), -1, 0)
+            K.ensure_eq("disp-other-flag", K.val(uf)[0], want, text=Q6V + " [disp(own lattice with the other align_corners flag)]")
         # 5. world-coordinate point API
         ew = K.reals("w", (2, D))
         pw = K.call(t.points, K.tensor(ew), axes=Axes.WORLD)
@@ -216,6 +229,13 @@ class CompositeTransforms:
             for kind in ("sequential", "multilevel"):
                 for pair in (("Translation", "AnisotropicScaling"), ("EulerRotation", "Translation"), ("Shearing", "AnisotropicScaling")):
                     yield {"D": D, "kind": kind, "members": list(pair)}
+            # longer sequences: every operand-form pair of the matrix composition (a member without translation after a
+            # prefix that carries one, and vice versa)
+            for seq in (("EulerRotation", "Translation", "AnisotropicScaling"), ("HomogeneousTransform", "EulerRotation"),
+                        ("Translation", "Shearing", "Translation"), ("AnisotropicScaling", "HomogeneousTransform", "IsotropicScaling")):
+                if tier == "quick" and D == 3 and len(seq) == 3 and seq[0] != "EulerRotation":
+                    continue
+                yield {"D": D, "kind": "sequential", "members": list(seq)}
 
     def run(self, case, K):
         import deepali.spatial as sp
@@ -235,9 +255,15 @@ class CompositeTransforms:
             return
         ep = K.reals("x", (1, 2, D))
         y = K.call(t, K.tensor(ep))
+        def chain(pts, order):
+            for k in order:
+                pts = apply_spec(maps[k][0], maps[k][1], pts, False)
+            return pts
+
+        nm = len(maps)
         if case["kind"] == "sequential":
-            want = apply_spec(maps[1][0], maps[1][1], apply_spec(maps[0][0], maps[0][1], ep, False), False)
-            bad = apply_spec(maps[0][0], maps[0][1], apply_spec(maps[1][0], maps[1][1], ep, False), False)
+            want = chain(ep, range(nm))
+            bad = chain(ep, reversed(range(nm)))
         else:
             y0 = apply_spec(maps[0][0], maps[0][1], ep, False)
             y1 = apply_spec(maps[1][0], maps[1][1], ep, False)
@@ -254,7 +280,7 @@ class CompositeTransforms:
         if K.ensure_returns(u):
             x = lattice(GSIZES[D][::-1], True)
             if case["kind"] == "sequential":
-                yx = apply_spec(maps[1][0], maps[1][1], apply_spec(maps[0][0], maps[0][1], x, False), False)
+                yx = chain(x, range(nm))
             else:
                 a, b = apply_spec(maps[0][0], maps[0][1], x, False), apply_spec(maps[1][0], maps[1][1], x, False)
                 yx = np.frompyfunc(lambda p, q, r: E.sub(E.add(p, q), r), 3, 1)(a, b, x)
@@ -408,6 +434,19 @@ class InverseVelocityBounded:
             err = (back - x).norm(dim=-1).max().item() / (2 / n)
             K.env["err_samples"] = err
             K.ensure("small", E.bconst(err < 0.05), text=f"C07: for velocity-field models on smooth fields to within a small fraction of a sample: {err:.4f} samples (bound 0.05)")
+        # an inverse created with update_buffers=True *after* the forward map was evaluated is usable as it is: its buffered
+        # displacement (points() / disp() do not run the update hook) is that of the inverse map
+        if not case["link"]:
+            inv2 = K.call(t.inverse, update_buffers=True)
+            if K.ensure_returns(inv2, text=Q7 + " [velocity-field models]"):
+                from deepali.core.grid import Axes
+
+                ax = Axes.from_grid(g)
+                back2 = K.call(inv2.points, y.detach(), axes=ax)
+                if K.ensure_returns(back2):
+                    err2 = (back2 - x).norm(dim=-1).max().item() / (2 / n)
+                    K.env["err_samples_buffered"] = err2
+                    K.ensure("small-buffered", E.bconst(err2 < 0.05), text=f"C07: inverse(update_buffers=True) taken after an evaluation, used through points(): {err2:.4f} samples (bound 0.05)")
 
 
 @register
@@ -479,6 +518,31 @@ class NonRigidViews:
         yg = K.call(t, K.tensor(lat[None]), grid=True, modifies=_mstate(t))
         if K.ensure_returns(yg):
             K.ensure_eq("grid-points", K.val(yg)[0], apply_spec(Pm, tm, lat, False), text=Q6V + " [forward(grid=True) on the grid's own sample points]")
+        # displacement field on other grids: the same world map, in the units of the *other* grid's normalised cube
+        # (a) the same lattice read with the other align_corners flag: cube = cube_corners * (n - 1) / n per axis
+        def rescale(vals, shp):
+            out = vals.copy()
+            for i in range(D):
+                n = shp[D - 1 - i]  # axis i (x first) has n samples
+                out[i] = np.frompyfunc(lambda v, n=n: E.mul(v, Fraction(n - 1, n)), 1, 1)(vals[i])
+            return out
+
+        ua = K.call(t.disp, g.align_corners(False), modifies=_mstate(t))
+        if K.ensure_returns(ua, text=Q6V + " [disp(own lattice, other align_corners flag)]"):
+            K.ensure_eq("disp-other-flag", K.val(ua)[0], rescale(want_u, shape), text=Q6V + " [disp(own lattice with the other align_corners flag): vectors in that grid's cube units]")
+        # (b) a finer grid over the same domain, and (c) that finer lattice with the other flag (the resampling path rounds
+        # sample coordinates to 12 decimals: compared up to that perturbation)
+        fsize = (7, 5)
+        fshape = fsize[::-1]
+        flat = lattice(fshape, True)
+        want_f = np.moveaxis(np.frompyfunc(E.sub, 2, 1)(apply_spec(Pm, tm, flat, False), flat), -1, 0)
+        h3 = g.resize(fsize)
+        ub = K.call(t.disp, h3, modifies=_mstate(t))
+        if K.ensure_returns(ub, text=Q6V + " [disp(finer grid)]"):
+            K.ensure_close("disp-finer", K.val(ub)[0], want_f, text=Q6V + " [disp(finer grid over the same domain)]")
+        uc = K.call(t.disp, h3.align_corners(False), modifies=_mstate(t))
+        if K.ensure_returns(uc, text=Q6V + " [disp(finer grid, other flag)]"):
+            K.ensure_close("disp-finer-other-flag", K.val(uc)[0], rescale(want_f, fshape), text=Q6V + " [disp(finer lattice with the other align_corners flag)]")
 
 
 def _mstate(t):
@@ -522,3 +586,101 @@ class SequentialWithNonRigid:
         mid = apply_spec(S, [E.ZERO] * D, lat, False)
         want = apply_spec(P, tr, mid, False)
         K.ensure_eq("composed", K.val(y)[0], want, text=Q6C + " [the dense member samples its field at the points already moved by the first member]")
+
+
+@register
+class ImageWarpOnOtherTargets:
+    """Bounded: ImageTransformer(t, target, source)(image) - the warped image on the target grid holds, at every target
+    sample whose image under t lies inside the source domain, the source intensity at world(T(x)); image = linear ramp in
+    world coordinates, t = world-affine small displacement (exactly representable by every model), targets = the
+    transformation's own grid, a crop of it, a shifted copy, a finer grid over the same domain."""
+
+    target = "deepali.spatial.transformer:ImageTransformer.forward"
+    properties = ("C06",)
+    symbolic = False
+    n_bounded = {"quick": 2, "thorough": 10}
+    tol = 2e-3
+
+    def cases(self, tier):
+        for model in ("AffineTransform", "DisplacementFieldTransform", "StationaryVelocityFieldTransform", "FreeFormDeformation"):
+            for target in ("same", "crop", "shift", "finer"):
+                yield {"model": model, "target": target}
+
+    def run(self, case, K):
+        import deepali.spatial as sp
+        from deepali.core.grid import Axes, Grid
+
+        r = K.rng
+        D = 2
+        a_ = r.uniform(-0.5, 0.5)
+        R = torch.tensor([[np.cos(a_), -np.sin(a_)], [np.sin(a_), np.cos(a_)]], dtype=torch.float32)
+        g = Grid(size=(13, 11), spacing=(r.uniform(0.7, 1.4), r.uniform(0.7, 1.4)), center=(r.uniform(-2, 2), r.uniform(-2, 2)), direction=R)
+        M = g.transform(Axes.GRID, Axes.WORLD)
+        xw = g.coords(normalize=False).float().reshape(-1, D) @ M[:, :D].T + M[:, D]
+        if case["model"] == "StationaryVelocityFieldTransform":
+            A = torch.zeros(D, D)  # constant velocity: exp(v) = v exactly
+        else:
+            A = torch.tensor([[r.uniform(-0.04, 0.04) for _ in range(D)] for _ in range(D)])
+        b = torch.tensor([r.uniform(-0.4, 0.4) for _ in range(D)])
+        K.env.update({"A": A.tolist(), "b": b.tolist(), "angle": a_})
+        if case["model"] == "AffineTransform":
+            # world map x -> x + A x + b, conjugated into the cube of g
+            W = torch.eye(D + 1)
+            W[:D, :D] += A
+            W[:D, D] = b
+            C2W = torch.eye(D + 1)
+            C2W[:D] = g.transform(Axes.from_grid(g), Axes.WORLD)
+            Mc = torch.linalg.inv(C2W) @ W @ C2W
+            t = sp.HomogeneousTransform(g, params=Mc[:D].unsqueeze(0).contiguous())
+        else:
+            uw = xw @ A.T + b
+            W2C = g.transform(Axes.WORLD, Axes.from_grid(g), vectors=True)[:D, :D]
+            uc = (uw @ W2C.T).T.reshape(1, D, *g.shape).contiguous()
+            if case["model"] == "FreeFormDeformation":
+                t = sp.FreeFormDeformation(g, params=True, stride=1)
+                t.fit(sp.DisplacementFieldTransform(g, params=uc.clone()).disp(), lr=0.5, steps=0) if False else None
+                # coefficients affine in the control point position reproduce the affine field (linear precision)
+                from deepali.core.bspline import cubic_bspline_control_point_grid
+
+                cg = cubic_bspline_control_point_grid(g, 1)
+                Mc_ = cg.transform(Axes.GRID, Axes.WORLD)
+                cw = cg.coords(normalize=False).float().reshape(-1, D) @ Mc_[:, :D].T + Mc_[:, D]
+                cu = ((cw @ A.T + b) @ W2C.T).T.reshape(1, D, *cg.shape).contiguous()
+                t = sp.FreeFormDeformation(g, params=cu, stride=1)
+            elif case["model"] == "StationaryVelocityFieldTransform":
+                t = sp.StationaryVelocityFieldTransform(g, params=uc.clone(), steps=4)
+            else:
+                t = sp.DisplacementFieldTransform(g, params=uc.clone())
+        if case["target"] == "same":
+            tg = g
+        elif case["target"] == "crop":
+            tg = g.crop(num=(2, 3, 1, 2))
+        elif case["target"] == "shift":
+            tg = g.center(g.center() + g.direction() @ (g.spacing() * torch.tensor([1.3, -0.8])))
+        else:
+            tg = g.resize((25, 21))
+        coef = torch.tensor([r.uniform(-1, 1) for _ in range(D)])
+        c0 = r.uniform(-1, 1)
+        img = (xw @ coef + c0).reshape(1, 1, *g.shape)
+        tr = K.call(sp.ImageTransformer, t, target=tg, source=g)
+        if not K.ensure_returns(tr):
+            return
+        out = K.call(tr, img)
+        if not K.ensure_returns(out):
+            return
+        Mt = tg.transform(Axes.GRID, Axes.WORLD)
+        xt = tg.coords(normalize=False).float().reshape(-1, D) @ Mt[:, :D].T + Mt[:, D]
+        yt = xt + xt @ A.T + b
+        want = (yt @ coef + c0).reshape(tg.shape)
+        # inside the source domain (in index space of g, one voxel margin)
+        W2G = g.transform(Axes.WORLD, Axes.GRID)
+        yi = yt @ W2G[:, :D].T + W2G[:, D]
+        xi = xt @ W2G[:, :D].T + W2G[:, D]
+        size = torch.tensor([float(n) for n in g.size()])
+        inside = ((yi >= 1) & (yi <= size - 2) & (xi >= 1) & (xi <= size - 2)).all(1).reshape(tg.shape)
+        K.ensure("overlap", E.bconst(int(inside.sum()) >= 10), text="(vacuity guard: target samples inside the source domain)", kind="helper")
+        got = out[0, 0]
+        err = float((got - want).abs()[inside].max()) if int(inside.sum()) else 0.0
+        K.env["max_err"] = err
+        scale = float(want.abs().max()) + 1.0
+        K.ensure("warp", E.bconst(err <= 2e-3 * scale), text=Q6V + f" [image warped onto a target grid ({case['target']}): intensity at world(T(x)), max error {err:.2e}]")
